@@ -63,6 +63,13 @@ def cuts(rng, frames):
     return sorted(set(rng.randint(1, ln - 1) for _ in range(rng.randint(1, 3))))
 
 
+def ops_ident(ops, c):
+    for o in ops:
+        if o.get("op") == "attach" and o.get("c") == c:
+            return o.get("ident") or None
+    return None
+
+
 def delivery_script(rng, stype, scen, drops=True, faults=True):
     ops = []
     npeers = rng.randint(1, 3)
@@ -88,10 +95,25 @@ def delivery_script(rng, stype, scen, drops=True, faults=True):
 
     attach()
     steps = rng.randint(6, 30)
+    idents = {}
     for _ in range(steps):
         x = rng.random()
         live = [c for c in attached if c not in closed]
-        if x < 0.10 and len(attached) < npeers:
+        idle_named = [c for c in live if c not in half and ops_ident(ops, c) and cnt.get(c, 0) == 0]    # never wrote anything: nothing of it can be lost
+        if x < 0.04 and idle_named and nxt <= 6:
+            # a new connection announces the identity of a still-connected, idle peer (e.g. that peer restarted and the old
+            # connection is half-open): it supersedes the old one, which stays silent from now on; the receiver may be parked
+            old = rng.choice(idle_named)
+            c = nxt; nxt += 1
+            if rng.random() < 0.7:
+                ops.append({"op": "recv_poll"})
+            ops.append({"op": "attach", "c": c, "ptype": rng.choice(PEER_OF[stype]), "ident": ops_ident(ops, old)})
+            attached.append(c); closed.add(old)
+            cnt[c] = 1
+            m = message(rng, "c%dm%d" % (c, 1), stype)
+            ops.append({"op": "psend", "c": c, "m": [hx(f) for f in m], "cuts": cuts(rng, m)}); sent += 1
+            ops.append({"op": "quiescent"})
+        elif x < 0.10 and len(attached) < npeers:
             attach()
         elif x < 0.45 and live:
             c = rng.choice(live)
